@@ -5,8 +5,13 @@ spec/Arena/Arena.tla       abstract arena (the property): one owner per block, a
 spec/Arena/ArenaImpl.tla   implementation-shaped model of arena.c over the lock-free LIFO (yield-point granularity), in
                            two variants of parsec_arena_release_chunk: the check-then-increment one and the one that
                            reserves its cache slot with the increment (fixes/arena-cache-limit-race.diff)
+spec/Arena/ArenaPlace.tla  the address arithmetic of parsec_arena_allocate_device_private (size asked from data_malloc,
+                           position of the data behind the chunk header) against the placement part of Arena.tla
+                           (Aligned / Inside), for every residue of the backing address modulo the alignment (ASSUMEs)
 spec/Arena/ArenaTrace.tla  trace validation of recorded arena histories (every data_malloc / data_free of the arena
-                           is logged by the harness' own allocator callbacks)
+                           is logged by the harness' own allocator callbacks, with address and size; every block
+                           handed out with its data address and extent: aligned, inside its memory, apart from the
+                           other extents handed out; guard bytes around every block intact when it is given back)
 spec/Arena/PoolTrace.tla   abstract thread memory pool + trace validation of recorded mempool histories
 
 1. TLC checks the refinement invariants (OneOwner, UseLimit, CacheLimit, CountersExact) of the reserving variant over
@@ -16,6 +21,8 @@ spec/Arena/PoolTrace.tla   abstract thread memory pool + trace validation of rec
    parsec_arena_allocate_device_private / parsec_arena_release; the variant whose step sequences and results the
    code reproduces is the code's (divergences are counted against that one).
 3. Every interleaving of small scenarios (arena and mempool) / seeded random schedules on the code itself.
+3b. Placement sweep (sequential): alignments 16..4096 x element sizes k*align-16..k*align+16 x counts 1,2,3,7, the
+   harness' data_malloc returning every residue modulo the alignment that malloc may return (multiples of 16).
 4. Free-running 4-16 thread stress with random limits, element sizes, alignments, counts.
 5. All recorded histories are validated by TLC against ArenaTrace / PoolTrace (the verdict).
 """
@@ -33,10 +40,15 @@ META = {
             "quiescence; schedules covering every transition of the model, exhaustive and random interleavings and "
             "free-running stress are executed on the real parsec_arena_allocate_device_private / parsec_arena_release "
             "and parsec_thread_mempool_allocate / parsec_mempool_free with the harness' own data_malloc/data_free "
-            "callbacks logging every block; each history (block identities, alignment, usable size, owner marks written "
-            "into the blocks, cached/freed decisions) is validated by TLC against ArenaTrace.tla / PoolTrace.tla.",
+            "callbacks (a private region: addresses with every residue modulo the alignment that malloc may return, guard "
+            "bytes around every block) logging every block; a sequential sweep over alignments, element sizes around "
+            "their multiples, counts and residues; each history (block identities, address and size of the memory "
+            "obtained, data address and extent handed out: aligned, inside that memory, apart from the other live "
+            "extents; guard bytes and owner marks intact; cached/freed decisions) is validated by TLC against "
+            "ArenaTrace.tla / PoolTrace.tla.",
     "note": "Bounded: 2-3 threads x 2-3 operations for the model-driven and exhaustive parts, 4-16 threads x 6-8 "
-            "operations sampled by stress; limits 0-3 and unlimited; counts 1-3. The arena is driven below the data "
+            "operations sampled by stress; limits 0-3 and unlimited; counts 1-3 (sweep: 1,2,3,7; alignments 16-4096, a selection "
+            "of the residues for 4096). The arena is driven below the data "
             "layer (harness-owned copy records), the mempool part has no implementation-shaped model (its LIFO is C30's). "
             "A refusal is accepted when the limit is reached counting the other callers' attempts in flight. "
             "x86-64 TSO; trusted: TLC, vsched, ndjson recorder. Hook: one yield point before the plain read of "
@@ -86,12 +98,90 @@ def lim(v):
 
 
 def scenario_file(sc, path):
-    with open(path, "w") as f:
+    f = open(path, "w") if isinstance(path, str) else path
+    try:
         f.write("mu %s\nmc %s\nesize %d\nalign %d\n" % (lim(sc.get("mu", INF)), lim(sc.get("mc", INF)),
                                                       sc.get("esize", 64), sc.get("align", 16)))
         f.write("threads %d\n" % len(sc["threads"]))
         for t, ops in enumerate(sc["threads"]):
             f.write("t %d %s\n" % (t, " ".join(ops)))
+    finally:
+        if isinstance(path, str):
+            f.close()
+
+
+SWEEP_ALIGNS = (16, 32, 64, 128, 256, 4096)
+SWEEP_COUNTS = (1, 2, 3, 7)
+SWEEP_PER_COUNT = 4          # residues per (arena, count): every residue of the list is used over the arenas of an alignment
+
+
+def sweep_residues(rng, a, nrandom=2):
+    """Addresses modulo the alignment that malloc may return: every multiple of 16; for the page alignment a selection
+    (aligned, just above, middle, and those where a chunk header of 48..96 bytes crosses the next boundary) + random ones."""
+    if a <= 256:
+        return list(range(0, a, 16))
+    return [0, 16, a // 2, a - 96, a - 64, a - 48, a - 32, a - 16] + [16 * rng.randrange(a // 16) for _ in range(nrandom)]
+
+
+def sweep_scenarios(rng, quick=True):
+    """One arena per (alignment, element size around a multiple of the alignment: k*align-16 .. k*align+16); in each, one
+    caller obtains blocks of every count at SWEEP_PER_COUNT residues of the backing address (rotating through the list
+    from one arena / count to the next; all blocks held at the same time), gives them back in a shuffled order and
+    obtains a few more (from the cache when there is one).  The residue a block gets is in the scenario: alloc:<c>@<r>."""
+    out = []
+    for a in SWEEP_ALIGNS:
+        res, pos = sweep_residues(rng, a, 2 if quick else 8), 0
+        per_count = SWEEP_PER_COUNT if quick else len(res)          # thorough: every residue in every arena
+        for k in ((1, 2) if quick else (1, 2, 3)):
+            for d in ((-16, -8, 0, 8, 16) if quick else (-16, -8, -1, 0, 1, 8, 16)):
+                es = k * a + d
+                if es <= 0:
+                    continue
+                ops = []
+                for c in SWEEP_COUNTS:
+                    for _ in range(min(per_count, len(res))):
+                        ops.append("alloc:%d@%d" % (c, res[pos % len(res)]))
+                        pos += 1
+                    pos += 1 if len(res) > per_count else 0       # shift: another pairing of counts and residues next time
+                pos += 1 if len(res) > per_count else 0
+                n = len(ops)
+                order = list(range(1, n + 1))
+                rng.shuffle(order)
+                ops += ["rel:%d" % j for j in order]
+                ops += ["alloc:%d@%d" % (c, rng.choice(res)) for c in (1, 2, 1)]
+                total = sum(int(o.split(":")[1].split("@")[0]) for o in ops[:n])
+                out.append({"name": "sweep", "align": a, "esize": es, "mu": rng.choice([INF, INF, total]),
+                            "mc": rng.choice([INF, 0, 1, 3]), "threads": [ops]})
+    return out
+
+
+def placement_vs_model(execution):
+    """Size asked from data_malloc and offset of the data in the block, as recorded, against spec/Arena/ArenaPlace.tla
+    (Size, DataOff).  A difference is a divergence of that model, not a verdict (the verdict is ArenaTrace's)."""
+    up = lambda x, a: (x + a - 1) // a * a
+    a = es = hd = None
+    cnt, blk, n, out = {}, {}, 0, []
+    for ev in execution:
+        e = ev.get("e")
+        if e == "init":
+            a, es, hd = ev["al"], ev["es"], ev.get("hd")
+        elif e == "inv" and ev.get("op") == "alloc":
+            cnt[ev["t"]] = ev["c"]
+        elif e == "malloc" and hd and ev.get("t") in cnt:
+            c = cnt[ev["t"]]
+            blk[ev["b"]] = ev
+            want = max(up(es * c + a + hd, a), 0)
+            if ev["sz"] != want:
+                out.append({"what": "size asked from data_malloc", "align": a, "esize": es, "count": c, "model": want, "real": ev["sz"]})
+        elif e == "res" and ev.get("op") == "alloc" and ev.get("b", 0) > 0:
+            n += 1
+            m = blk.get(ev["b"])
+            if m is not None and hd:
+                want = up(m["base"] + hd, a) - m["base"]
+                if ev["data"] - m["base"] != want:
+                    out.append({"what": "offset of the data in the block", "align": a, "esize": es, "base_mod_align": m["base"] % a,
+                                "model": want, "real": ev["data"] - m["base"]})
+    return n, out
 
 
 def pool_scenario_file(sc, path):
@@ -211,7 +301,7 @@ def random_scenario(rng, nthreads, nops):
                 mine.append(i + 1)
         threads.append(ops)
     return {"name": "stress", "mu": rng.choice([INF, INF, nthreads, 2 * nthreads, 3]), "mc": rng.choice([INF, 0, 1, 2, nthreads]),
-            "esize": rng.choice([24, 64, 100, 200]), "align": rng.choice([8, 16, 64]), "threads": threads}
+            "esize": rng.choice([24, 64, 100, 200, 256]), "align": rng.choice([8, 16, 32, 64, 128]), "threads": threads}
 
 
 def random_pool_scenario(rng, nthreads, nops):
@@ -282,8 +372,8 @@ def run(ctx):
         ctx.extra.setdefault("phase_wall_s", {})[name] = round(time.time() - t0[0], 1)
         t0[0] = time.time()
 
-    # ---- 1. abstract spec ------------------------------------------------------------------------------------
-    ctx.tlc_check("Arena", "Arena", "Arena.cfg")
+    # ---- 1. abstract spec (+ the placement arithmetic of arena.c against the placement part of it, as ASSUMEs) ----
+    ctx.tlc_check("Arena", "ArenaPlace", "ArenaPlace.cfg")
     phase("model")
 
     # ---- 2. graphs of both variants of the first scenario: which one is the code ? ------------------------------
@@ -356,6 +446,31 @@ def run(ctx):
         pool_executions.append(("rp", "random", e))
     ctx.exhaustive = all_exh
     phase("explore")
+
+    # ---- 3b. placement sweep (sequential): alignments x element sizes around their multiples x counts x residues ----
+    sweep = sweep_scenarios(ctx.rng, ctx.quick)
+    swf = os.path.join(ctx.scratch, "sweep.scn")
+    with open(swf, "w") as f:
+        for sc in sweep:
+            scenario_file(sc, f)
+            f.write("end\n")
+    tr, meta = os.path.join(ctx.scratch, "sweep.trace"), os.path.join(ctx.scratch, "sweep.meta")
+    exs, metas = run_harness(ctx, exe, ["sweep", swf, "-", tr, meta], tr, meta, timeout=600)
+    nblocks, ndiv = 0, 0
+    for e in exs:
+        executions.append(("sweep", "sweep", e))
+        n, dv = placement_vs_model(e)
+        nblocks += n
+        for x in dv:
+            ndiv += 1
+            ctx.divergences += 1
+            ctx.sample({"divergence": x}, limit=6)
+    ctx.extra["placement_sweep"] = {"arenas": len(sweep), "blocks_handed_out": nblocks, "alignments": list(SWEEP_ALIGNS),
+                                    "counts": list(SWEEP_COUNTS), "size_or_offset_differs_from_ArenaPlace": ndiv}
+    crashed = any(e and e[-1].get("e") == "Crash" for e in exs)      # a verdict (rejected below), not a tool error
+    if not crashed and (len(exs) < len(sweep) or nblocks < len(sweep)):
+        raise tlc.TLCError("placement sweep: %d of %d arenas run, %d blocks handed out" % (len(exs), len(sweep), nblocks))
+    phase("sweep")
 
     # ---- 4. free-running stress --------------------------------------------------------------------------------------
     plan = [(4, 8), (8, 6), (16, 6)] if ctx.quick else [(2, 10), (4, 10), (8, 8), (16, 6), (16, 8), (12, 8)]
